@@ -3,6 +3,7 @@
 #pragma once
 #include "proto.h"
 #include <manif/manif.h>
+#include <manif/functions.h>
 
 namespace hx {
 
@@ -65,6 +66,90 @@ template <class T> struct TOperand<T, 'c'> {
   const Eigen::Map<const T>& get() const { return v; }
 };
 
+// Aliases of the canonical members (README table, operators, tangent-side forms, functions.h).
+// Returns false when `op` is not an alias handled here.
+template <class G, char S>
+bool runAlias(const Req& r, Resp& R) {
+  using T = typename G::Tangent;
+  using J = typename G::Jacobian;
+  constexpr int Rep = G::RepSize, DoF = G::DoF, Dim = G::Dim;
+  const std::string& op = r.op;
+  const std::vector<double>& a = r.a;
+  auto& out = R.out;
+  const bool w0 = r.mask & 1, w1 = r.mask & 2;
+  J ja, jb;
+  typename G::OptJacobianRef oa, ob;
+  if (w0) oa = ja;
+  if (w1) ob = jb;
+  auto need = [&](size_t n) { return a.size() == n; };
+  auto fin = [&]() { if (w0) pushM(out, ja); if (w1) pushM(out, jb); };
+  if (need(Rep + DoF)) {           // (X, t) forms
+    Operand<G, S> x(a.data()); TOperand<T, S> t(a.data() + Rep);
+    if (op == "plus") { G g = x.get().plus(t.get(), oa, ob); pushM(out, g.coeffs()); fin(); return true; }
+    if (op == "op+") { G g = x.get() + t.get(); pushM(out, g.coeffs()); return true; }
+    if (op == "t+X") { G g = t.get() + G(x.get()); pushM(out, g.coeffs()); return true; }
+    if (op == "t.plus") { G g = t.get().plus(G(x.get()), oa, ob); pushM(out, g.coeffs()); fin(); return true; }
+    if (op == "t.lplus") { G g = t.get().lplus(G(x.get()), oa, ob); pushM(out, g.coeffs()); fin(); return true; }
+    if (op == "t.rplus") { G g = t.get().rplus(G(x.get()), oa, ob); pushM(out, g.coeffs()); fin(); return true; }
+    if (op == "f_rplus") { G g = manif::rplus(x.get(), t.get(), oa, ob); pushM(out, g.coeffs()); fin(); return true; }
+    if (op == "f_lplus") { G g = manif::lplus(x.get(), t.get(), oa, ob); pushM(out, g.coeffs()); fin(); return true; }
+    if (op == "f_plus") { G g = manif::plus(x.get(), t.get(), oa, ob); pushM(out, g.coeffs()); fin(); return true; }
+  }
+  if (need(2 * Rep)) {             // (X, Y) forms
+    Operand<G, S> x(a.data()), y(a.data() + Rep);
+    if (op == "minus") { T t = x.get().minus(y.get(), oa, ob); pushM(out, t.coeffs()); fin(); return true; }
+    if (op == "op-") { T t = x.get() - y.get(); pushM(out, t.coeffs()); return true; }
+    if (op == "op*") { G g = x.get() * y.get(); pushM(out, g.coeffs()); return true; }
+    if (op == "f_rminus") { T t = manif::rminus(x.get(), y.get(), oa, ob); pushM(out, t.coeffs()); fin(); return true; }
+    if (op == "f_lminus") { T t = manif::lminus(x.get(), y.get(), oa, ob); pushM(out, t.coeffs()); fin(); return true; }
+    if (op == "f_minus") { T t = manif::minus(x.get(), y.get(), oa, ob); pushM(out, t.coeffs()); fin(); return true; }
+    if (op == "f_compose") { G g = manif::compose(x.get(), y.get(), oa, ob); pushM(out, g.coeffs()); fin(); return true; }
+    if (op == "f_between") { G g = manif::between(x.get(), y.get(), oa, ob); pushM(out, g.coeffs()); fin(); return true; }
+  }
+  if (need(Rep)) {
+    Operand<G, S> x(a.data());
+    if (op == "f_inverse") { G g = manif::inverse(x.get(), oa); pushM(out, g.coeffs()); if (w0) pushM(out, ja); return true; }
+    if (op == "f_log") { T t = manif::log(x.get(), oa); pushM(out, t.coeffs()); if (w0) pushM(out, ja); return true; }
+  }
+  if (need(DoF)) {
+    TOperand<T, S> t(a.data());
+    if (op == "f_exp") { G g = manif::exp(t.get(), oa); pushM(out, g.coeffs()); if (w0) pushM(out, ja); return true; }
+  }
+  if (op == "f_act" && need(Rep + Dim)) {
+    Operand<G, S> x(a.data());
+    typename G::Vector v;
+    for (int i = 0; i < Dim; ++i) v(i) = a[Rep + i];
+    Eigen::Matrix<double, Dim, DoF> jm; Eigen::Matrix<double, Dim, Dim> jv;
+    tl::optional<Eigen::Ref<Eigen::Matrix<double, Dim, DoF>>> om;
+    tl::optional<Eigen::Ref<Eigen::Matrix<double, Dim, Dim>>> ov;
+    if (w0) om = jm;
+    if (w1) ov = jv;
+    typename G::Vector res = manif::act(x.get(), v, om, ov);
+    pushM(out, res); if (w0) pushM(out, jm); if (w1) pushM(out, jv);
+    return true;
+  }
+  return false;
+}
+
+// mutating aliases: only for owning objects and mutable views
+template <class G, char S>
+typename std::enable_if<S != 'c', bool>::type runMutAlias(const Req& r, Resp& R) {
+  using T = typename G::Tangent;
+  constexpr int Rep = G::RepSize, DoF = G::DoF;
+  const std::vector<double>& a = r.a;
+  if (r.op == "op+=" && a.size() == (size_t)(Rep + DoF)) {
+    Operand<G, S> x(a.data()); TOperand<T, 'o'> t(a.data() + Rep);
+    x.mut() += t.get(); pushM(R.out, x.get().coeffs()); return true;
+  }
+  if (r.op == "op*=" && a.size() == (size_t)(2 * Rep)) {
+    Operand<G, S> x(a.data()); Operand<G, 'o'> y(a.data() + Rep);
+    x.mut() *= y.get(); pushM(R.out, x.get().coeffs()); return true;
+  }
+  return false;
+}
+template <class G, char S>
+typename std::enable_if<S == 'c', bool>::type runMutAlias(const Req&, Resp&) { return false; }
+
 template <class G, char S>
 void runS(const Req& r, Resp& R) {
   using T = typename G::Tangent;
@@ -77,6 +162,7 @@ void runS(const Req& r, Resp& R) {
   const bool w0 = mask & 1, w1 = mask & 2;
   auto need = [&](size_t n) { return a.size() == n; };
   R.handled = true;
+  if (runAlias<G, S>(r, R) || runMutAlias<G, S>(r, R)) return;
   if (op == "exp" && need(DoF)) {
     TOperand<T, S> t(a.data()); J j;
     G g = w0 ? t.get().exp(j) : t.get().exp();
